@@ -214,6 +214,64 @@ def _subprefix_chunk(chunk):
     return len(chunk), nt, fails
 
 
+def resolve_late(mask):
+    """the same eight sources, for an option that does NOT exist yet when the two project() calls are merged: a compiler option
+    (cpp_std) of a language only the subproject adds afterwards — what the sources said waits as pending and must come out in the same
+    documented order"""
+    from mesonbuild.options import OptionStore, OptionKey, UserComboOption
+    K = OptionKey
+    vals = [f'c++{n}' for n in (3, 11, 14, 17, 20, 23, 26, 98)]
+    present = {s: bool(mask >> i & 1) for i, s in enumerate(SRC)}
+    val = dict(zip(SRC, vals))
+    st = OptionStore(False)
+    st.init_builtins()
+    top_pd, cmd, mf = {}, {}, {}
+    if present['parent_opt']:
+        top_pd[K('cpp_std')] = val['parent_opt']
+    if present['parent_subopt']:
+        top_pd[K('cpp_std', 'sub')] = val['parent_subopt']
+    if present['mf_opt']:
+        mf[K('cpp_std')] = val['mf_opt']
+    if present['mf_subopt']:
+        mf[K('cpp_std', 'sub')] = val['mf_subopt']
+    if present['cmd_opt']:
+        cmd[K('cpp_std')] = val['cmd_opt']
+    if present['cmd_subopt']:
+        cmd[K('cpp_std', 'sub')] = val['cmd_subopt']
+    st.initialize_from_top_level_project_call(top_pd, cmd, mf)
+    own = {K('cpp_std'): val['own_opt']} if present['own_opt'] else {}
+    spc = {K('cpp_std'): val['spcall_opt']} if present['spcall_opt'] else {}
+    st.initialize_from_subproject_call('sub', spc, own, cmd, mf)
+    # only now the subproject adds its language (CoreData.add_compiler_options)
+    st.add_compiler_option('cpp', K('cpp_std', subproject='sub'), UserComboOption('cpp_std', 'd', 'none', choices=['none'] + vals))
+    top = st.get_value_for('cpp_std')
+    sub = st.get_value_for('cpp_std', 'sub')
+    etop = 'none'
+    for s_ in ('parent_opt', 'mf_opt', 'cmd_opt'):
+        if present[s_]:
+            etop = val[s_]
+    esub = etop
+    for s_ in SRC:
+        if present[s_]:
+            esub = val[s_]
+    return (top, sub), (etop, esub), present
+
+
+def _preclate_chunk(chunk):
+    fails, nt = [], 0
+    for mask in chunk:
+        try:
+            got, exp, present = resolve_late(mask)
+        except Exception as ex:
+            fails.append({'case': {'mask': mask}, 'stage': 'precedence-late', 'detail': f'{type(ex).__name__}: {ex}'})
+            continue
+        nt += bin(mask).count('1') >= 2
+        if got != exp:
+            fails.append({'case': {'mask': mask, 'sources': [s for s in SRC if present[s]]}, 'stage': 'precedence-late',
+                          'detail': f'late-created cpp_std: (top-level, subproject) values {got!r}, documented precedence gives {exp!r}'})
+    return len(chunk), nt, fails
+
+
 def _prec_chunk(chunk):
     fails, nt = [], 0
     for kind, mask in chunk:
@@ -480,6 +538,10 @@ def run(REG, tier, seed, jobs):
                   'rule': 'non-trivial: at least two sources present', 'exhaustive': True, 'failures': fails})
     pcases = [(n, m, mask, noise) for n in ('pkg_config_path', 'cmake_prefix_path') for m in ('host', 'build') for mask in range(256) for noise in (False, True)]
     ev, nt, fails = pmap(_pm_chunk, chunked(iter(pcases), 64), jobs)
+    ev_, nt_, fails_ = pmap(_preclate_chunk, chunked(iter(range(256)), 32), jobs)
+    parts.append({'name': 'C07/bounded/precedence-all-source-subsets-late-created-option', 'function': 'OptionStore.initialize_from_top_level_project_call / initialize_from_subproject_call / add_compiler_option (pending values)',
+                  'bound': 'all 2^8 subsets of the eight sources for a compiler option (cpp_std) that is created only AFTER both project() calls were merged (the subproject adds the language later)',
+                  'evaluations': ev_, 'distinct_nontrivial': nt_, 'rule': 'non-trivial: at least two sources present', 'exhaustive': True, 'failures': fails_})
     parts.append({'name': 'C07/bounded/per-machine-options-in-cross-builds', 'function': 'OptionStore.initialize_from_top_level_project_call / initialize_from_subproject_call / get_value_for (is_cross)',
                   'bound': 'all 2^8 subsets of the eight value sources x {pkg_config_path, cmake_prefix_path} x {host, build} machine key x (the other machine silent / set by every source to another value), cross build, real builtin options',
                   'evaluations': ev, 'distinct_nontrivial': nt, 'rule': 'every case', 'exhaustive': True, 'failures': fails})
